@@ -383,13 +383,13 @@ def load_data(file_name, **kwargs):
     if "allow_pickle" not in kwargs:
         kwargs["allow_pickle"] = True
     data = np.load(file_name, **kwargs)
-    try:
-        return data["arr_0"].item()
-    except IndexError:
-        try:
-            return data.item()
-        except ValueError:
-            return data
+    if isinstance(data, np.lib.npyio.NpzFile):
+        data = data["arr_0"]
+    if data.dtype == object and data.ndim == 0:
+        # a structure saved through a 0-d object array
+        return data.item()
+    # a plain array is returned as it is (also with one element)
+    return data
 
 
 def _data_split(dat, batch_size, axis=0):
